@@ -96,6 +96,8 @@ def run(ctx):
         cmp(('avl', fam[0], 1), ('rbt', fam[0], 1), 'avl<->rbt')
     cmp(('avl', 'tear', 0), ('rbt', 'tear', 0), 'avl<->rbt')
     macros(ctx)
+    links(ctx)
+    rep.floor('I0', 2)
     rep.floor('I3', 22)
     rep.floor('I1', 21)
     rep.floor('I2', 28)
@@ -110,6 +112,41 @@ def run(ctx):
             rep.ok('FIXTURE', 'sib-mirror', 'a function is not its own mirror image: the symmetry is not vacuous')
         else:
             rep.unk('FIXTURE', 'sib-mirror', 'positive control failed')
+
+
+def links(ctx):
+    """I0: every traversal climbs parent links, so it enumerates the tree only if the mutators leave child and parent links in
+    agreement.  The link obligations of the C01 / C02 analyses (Final.link_problems on every resulting fragment) are re-run here
+    and a broken link is reported against this property as well."""
+    import importlib
+    import report
+    import main as main_
+    import tree as tree_
+    rep = ctx.rep
+    for pid, unit in (('C01', 'avl'), ('C02', 'rbt')):
+        sub = report.Report(pid, ctx.tier)
+        sctx = main_.Ctx(pid, ctx.tier, ctx.scr, sub)
+        sctx._mods, sctx._cfg = ctx._mods, ctx._cfg
+        del tree_.LINK_LOG[:]
+        try:
+            importlib.import_module('props.' + pid).run(sctx)
+        except Exception as e:
+            rep.unk('I0', unit, 'link analysis failed: %r' % (e,))
+            continue
+        calls = len(tree_.LINK_LOG)
+        nodes = sum(n for n, _ in tree_.LINK_LOG)
+        texts = set(t for _, ps in tree_.LINK_LOG for t in ps)
+        bad = [o for o in sub.obs if o['status'] == report.VIOL and any(t in o['detail'] for t in texts)]
+        rep.functions.update(sub.functions)
+        if calls < 100:
+            rep.unk('I0', unit, 'only %d link obligations were generated (anchor vanished or analysis broken)' % calls)
+        elif bad:
+            o = bad[0]
+            rep.bad('I0', 'a_%s_insert/remove' % unit, 'a mutator leaves child and parent links in disagreement, so the parent-climbing traversals leave the tree: %s %s: %s'
+                    % (o['rule'], o['symbol'], o['detail'][:300]), loc=o.get('loc'), key='%s: links after mutation' % unit)
+        else:
+            rep.ok('I0', 'a_%s_insert/remove' % unit, 'child and parent links agree in every resulting fragment of the %s analysis (%d fragments, %d nodes)' % (pid, calls, nodes),
+                   sample={'unit': unit, 'fragments': calls, 'nodes': nodes})
 
 
 def steps(ctx):
